@@ -92,5 +92,11 @@ MultiPool == {Named("multi", p[1] \o p[2]) : p \in KindPairs} \cup {Named("multi
 \* standard communities: every well-known value the decoder names, their neighbours, and boundary values
 StdPool(lazy) == {Named("community", U32hl(<<65535, x>>)) : x \in {0, 1, 2, 3, 4, 5, 6, 665, 666, 667, 65280, 65281, 65282, 65283, 65284, 65285, 65535}}
            \cup {Named("community", U32hl(<<a, b>>)) : a \in {0, 1, 65000, 65534}, b \in {0, 1, 65535}}
+\* lists of three different large communities over a small alphabet of field values: octet windows of two neighbours can
+\* coincide with a third value
+LargeAlpha == {<<<<0, 0>>, <<0, 0>>, <<0, 1>>>>, <<<<0, 0>>, <<0, 0>>, <<0, 0>>>>, <<<<0, 1>>, <<0, 0>>, <<0, 0>>>>, <<<<0, 0>>, <<0, 256>>, <<0, 0>>>>,
+               <<<<0, 65001>>, <<0, 100>>, <<0, 200>>>>, <<<<0, 100>>, <<0, 200>>, <<0, 65002>>>>, <<<<0, 65002>>, <<0, 100>>, <<0, 200>>>>}
+LargeOct(v) == U32hl(v[1]) \o U32hl(v[2]) \o U32hl(v[3])
+LargeMulti == {Named("large-multi", LargeOct(a) \o LargeOct(b) \o LargeOct(c)) : a, b, c \in LargeAlpha}
 LargePool(lazy) == {Named("large-community", U32hl(a) \o U32hl(b) \o U32hl(c)) : a, b, c \in {<<0, 0>>, <<0, 1>>, <<32768, 0>>, <<65535, 65535>>}}
 =============================================================================
